@@ -3,26 +3,29 @@ SPEC = {
              {"kind": "dissect", "quick": 40000, "thorough": 600000}],
     "rule": "sFlow v5 datagrams encoded from an abstract datagram by the harness's own XDR encoder: 0..5 samples of "
             "flow / counter / expanded / unknown / enterprise type, 0..4 records each (raw header Ethernet(+-802.1Q)/IPv4/IPv6 x "
-            "TCP/UDP/ICMP(1 and 58 after either network layer), all 24 layer combinations incl. header protocol 11/12, every header field over its full range incl. the version nibble, IPv4 options in a quarter of the IPv4 headers (IHL 6..15: random octets, real options, octets that read as a transport header), header lengths up to 1500 and XDR padding, extended switch, extended router v4/v6, the six "
+            "TCP/UDP/ICMP(1 and 58 after either network layer), all 24 layer combinations incl. header protocol 11/12, every header field over its full range incl. the version nibble and the three TCP reserved bits, IPv4 options in a quarter of the IPv4 headers (IHL 6..15: random octets, real options, octets that read as a transport header), header lengths 0..1500 and XDR padding; "
+            "one sampled header in five is one the packet structs cannot represent (cut at a marked or random offset inside the Ethernet header / 802.1Q tag / fixed IP header / IPv4 options / transport header, or to nothing; ARP, LACP, LLDP, MPLS, 802.1ad, QinQ and random ether types; IPv6 extension headers, GRE, ESP, OSPF, SCTP and random IP protocols; sFlow header protocols other than 1/11/12): expectation = record absent, everything else intact; "
+            "flow-sample source id type and 24-bit index; extended switch, extended router v4/v6, address type 0 (length 12) and other lengths (0..64), the six "
             "counter layouts, unknown formats), IPv4/IPv6 agents; ~12% field-aware mutations (truncation, bit flip, boundary "
             "values in length/count/format words, extended-router lengths, truncated sampled headers); kind dissect: "
-            "packet.Decoder alone on encoded headers, 30% truncated/perturbed (incl. an IPv4 header-length nibble 0..15 that no longer matches the octets). non-trivial = the implementation returned a "
+            "packet.Decoder alone on encoded headers: the representable ones must dissect to the abstract packet, the unrepresentable ones must be an error (expectation E), 30% truncated/perturbed (incl. an IPv4 header-length nibble 0..15 that no longer matches the octets). non-trivial = the implementation returned a "
             "datagram/packet (not an error); distinct = distinct case line",
     "assumptions": ["Go semantics of bytes.Reader / encoding/binary.Read / slices as transcribed in Vflow.Model.Sflow and Vflow.Model.Packet",
-                    "well-formed sampled headers: IPv4 options 0..40 octets in multiples of 4 (IHL 5..15, any content), TCP reserved bits 0, first IPv6 next header TCP/UDP/ICMPv6 "
-                    "(what the packet structs can represent)"],
+                    "sampled headers: any octets, 0..1500, under any header protocol (F19a); the ones reported as RawHeader are Ethernet(+-one 802.1Q tag)|none x IPv4 with options 0..40 octets in multiples of 4 (IHL 5..15, any content)|IPv6 x TCP (reserved bits 0..7)|UDP|ICMP as the first IPv6 next header "
+                    "(what the packet structs can represent); every other sampled header leaves its record out and nothing else changes; an ICMP header cut after 5..7 of its 8 octets is reported with the RestHeader octets that are there, cut after 4 it is not (the code's threshold `len(b) < 5`, taken over by the oracle and by ATrans.need; named in DESIGN.md 13.2)"],
 }
 META = {
     "text": "Lean theorems about the executable model of sflow/*.go and packet/*.go (round trip decode (encode d) = expected d "
             "from the leaves upward: field lists, the six counter layouts, extended switch/router, raw header with XDR padding, "
             "flow/counter samples, unknown samples/records skipped by length, header with v4/v6 agent; dissector field-extraction "
             "theorems per layer, composed in dissect_encodeHeader for every Ethernet(+-802.1Q)|none x IPv4 (any options, IHL 5..15)|IPv6 x TCP|UDP|ICMP "
-            "combination, and decode_encode' over abstract headers needing only well-formedness); the model is tied to the code by byte-for-byte comparison of json.Marshal output on generated "
+            "combination; undissectable_header / header_cut: a header cut before the end of its transport header at any offset, a non-IP ether type incl. QinQ, an IP protocol without a struct incl. IPv6 extension headers, another header protocol is a dissector error; raw_record_dissectable / raw_record_undissectable: a raw-header record of ANY octets (0..1500) is consumed exactly and reported iff dissectable; "
+            "decode_encode' over abstract headers of both kinds needing only well-formedness, its expected datagram not mentioning the dissector); the model is tied to the code by byte-for-byte comparison of json.Marshal output on generated "
             "datagrams, and the code is checked against the abstract datagram each case was encoded from.",
     "ref": "DESIGN.md §6 C07 / C18",
     "note": "Trusted: Lean kernel; hand-written model (Go reader/slice semantics transcribed); harness generator, wire encoder "
-            "and oracle bound what the tie sees. IPv6 extension headers are outside the modelled well-formed domain "
-            "(IPv4 options are inside it since F17).",
+            "and oracle bound what the tie sees. IPv4 options are inside the well-formed domain since F17; since F19 every sampled header is "
+            "(IPv6 extension headers, non-IP frames, truncated headers: record absent, rest intact), as are the source id index, the TCP reserved bits and extended-router records of any length.",
     "technique": "Lean 4 round-trip proofs over a wire encoder + differential correspondence with sflow.SFDecode / packet.Decoder "
                  "+ abstract-datagram oracle",
 }
